@@ -108,6 +108,8 @@ type Case struct {
 	R   int   `json:"r,omitempty"`
 	Opt int   `json:"opt,omitempty"`
 	Msk []int `json:"msk,omitempty"`
+	// round 6: helper machines (helper2.go): the supplied function, one expression per output
+	Ex []string `json:"ex,omitempty"`
 }
 
 func (c *Case) etFast() int {
@@ -926,6 +928,10 @@ func writeCase(rn *runner, c *Case) {
 		rn.eqCase(c)
 	case "Jac", "Hes":
 		rn.helperCase(c)
+	case "JM", "HM":
+		rn.helperMCase(c)
+	case "HSrc":
+		rn.helpSrcCase(c)
 	case "O":
 		rn.optCase(c)
 	case "OD":
@@ -1035,12 +1041,23 @@ func generate(rng *Rng, n int, tier string) []*Case {
 	for i := 0; i < nh; i++ {
 		cs = append(cs, genHelper(rng, i))
 	}
+	// ---- round 6: the helpers' statement lists from the source (4 bodies + their element-type copies), and the
+	// helper machines on random functions: every receiver type x caller state x recycling (160 combinations)
+	for w := 0; w < 2; w++ {
+		for sp := 0; sp < 2; sp++ {
+			cs = append(cs, &Case{Kind: "HSrc", Fid: w, P: sp})
+		}
+	}
+	hrng := rng.Split()
+	for i := 0; i < n*8/21; i++ {
+		cs = append(cs, genHelperM(hrng, i))
+	}
 	return cs
 }
 
 // ---------------------------------------------------------------- main
 
-const header = "From Coq Require Import List ZArith QArith Floats.\nFrom Coq Require String.\nImport String.StringSyntax.\nFrom ADV Require Import C06.ModelOpt C06.Corr.\nImport ListNotations.\nOpen Scope string_scope.\nOpen Scope Z_scope.\nOpen Scope nat_scope.\n"
+const header = "From Coq Require Import List ZArith QArith Floats.\nFrom Coq Require String.\nImport String.StringSyntax.\nFrom ADV Require Import C06.ModelOpt C06.ModelHelp C06.Corr.\nImport ListNotations.\nOpen Scope string_scope.\nOpen Scope Z_scope.\nOpen Scope nat_scope.\n"
 
 func loadCorpus(path string) []*Case {
 	var cs []*Case
